@@ -139,7 +139,7 @@ func TestC01(t *testing.T) {
 		family := []*member{}
 		nextGrp := 0
 		add := func(m *member) {
-			if len(family) >= 40 {
+			if len(family) >= 40 && tier() != "thorough" || len(family) >= 70 {
 				return
 			}
 			var snap string
@@ -158,7 +158,11 @@ func TestC01(t *testing.T) {
 		panicked := 0
 		classes := map[string]bool{}
 
-		nsteps := rapid.IntRange(1, 25).Draw(t, "nsteps")
+		maxSteps := 25
+		if tier() == "thorough" {
+			maxSteps = 45
+		}
+		nsteps := rapid.IntRange(1, maxSteps).Draw(t, "nsteps")
 		for step := 0; step < nsteps; step++ {
 			mi := rapid.IntRange(0, len(family)-1).Draw(t, "member")
 			m := family[mi]
